@@ -179,3 +179,20 @@ Proof.
     vm_compute. splits; auto; try discriminate. intros i [<-|[]]. discriminate.
   - revert E. vm_compute. discriminate.
 Qed.
+
+(** * C05: every operation returns exactly once (safety half of CliC05 + liveness at quiescence) *)
+Lemma returns_once_full c tr s : traces_to c tr s ->
+  (forall n, ret_count n (hist s) <= 1)
+  /\ (forall n r r', In (ORet n r) (hist s) -> In (ORet n r') (hist s) -> r = r')
+  /\ (forall n r, In (ORet n r) (hist s) -> exists o, op_at s n = Some o /\ o_ret o = Some r /\ o_pc o = PDone)
+  /\ (forall n o, op_at s n = Some o -> o_pc o <> PDone -> ret_count n (hist s) = 0)
+  /\ (quiescent s = true ->
+        (forall n o, op_at s n = Some o -> o_pc o <> PDone -> blocked_call s o \/ blocked_close s o)
+        /\ (forall n o, op_at s n = Some o -> o_kind o <> KClose ->
+              (forall i, In i (o_slots o) -> slot_val s i <> None) \/ o_ctx o <> None \/ err s <> None ->
+              o_pc o = PDone /\ ret_count n (hist s) = 1)
+        /\ (forall n o, op_at s n = Some o -> o_kind o = KClose -> wg s = 0 -> o_pc o = PDone /\ ret_count n (hist s) = 1)).
+Proof.
+  intros T. destruct (returns_once c tr s T) as (A & B & C & D). splits; auto.
+  intros Q. apply (live_at_quiescence c tr s T Q).
+Qed.
